@@ -48,3 +48,39 @@ PROPS["C20"] = dict(
     outside="target_pointer_width 32/16 variants; sub-token distinctness for n tokens follows by "
             "induction from the single-step TokenFactory/increment_sub_id harnesses",
 )
+
+DISP_FNS = ["<RefCell<DispatcherInner<S,F>> as EventDispatcher>::register",
+            "<RefCell<DispatcherInner<S,F>> as EventDispatcher>::reregister",
+            "<RefCell<DispatcherInner<S,F>> as EventDispatcher>::unregister",
+            "AdditionalLifecycleEventsSet::register", "AdditionalLifecycleEventsSet::unregister"]
+
+K_SOURCES = {
+    "bitor": H("k_c09_bitor", "sources", "PostAction | and |= over all 16 pairs",
+               ["<PostAction as BitOr>::bitor", "<PostAction as BitOrAssign>::bitor_assign"], "all 16 pairs"),
+    "idle": H("k_c13_idle_option", "sources", "Option<F> idle wrapper: dispatch runs iff not cancelled",
+              ["<Option<F> as IdleDispatcher>::dispatch", "<Option<F> as CancellableIdle>::cancel"], "both cases"),
+}
+
+LC_SHAPES = ["f0r0_n0", "f0r0_n1", "f0r1_n0", "f0r1_n1", "f1r0_n0", "f1r0_n1", "f1r0_n2", "f1r1_n0p0",
+             "f1r1_n1p0", "f1r1_n1p1", "f1r1_n2p0", "f1r1_n2p1", "f1r1_n2p2"]
+K_LC = [H("k_c14_lc_" + sh, "sources",
+          "inductive step from the invariant state of shape %s (f=opted in, r=registered, n=foreign "
+          "entries, p=position of own entry): one symbolic register|reregister|unregister with symbolic "
+          "failure of the source's own call re-establishes 'listed exactly once iff registered and opted "
+          "in' and leaves foreign entries untouched" % sh,
+          DISP_FNS, "1 step, concrete set shape, symbolic tokens/operation/failure; instantiation "
+          "DispatcherInner<LcMock, fn>, Data=(); global unwind 3, Vec::retain_mut unwound 6",
+          unwindset=[("retain_mut", 6), ("contains", 6)], timeout_q=600) for sh in LC_SHAPES]
+K_LC2 = [H("k_c14_lc2_" + sh, "sources", "two consecutive steps from shape " + sh, DISP_FNS,
+           "2 steps, unwind 3 + retain_mut 6", unwindset=[("retain_mut", 6), ("contains", 6)], tiers=T, timeout_t=2400)
+         for sh in ["f1r0_n1", "f1r1_n1p0", "f1r1_n1p1"]]
+
+K_REENT = [H("k_c08_reentrant_defers_" + sh, "sources",
+             "unregister/reregister on a dispatcher whose RefCell is mutably borrowed (its callback is running) "
+             "return Ok(false) and touch neither source nor lifecycle set; outside they return Ok(true), reach "
+             "the source and clear the entry (shape %s)" % sh,
+             DISP_FNS[1:3], "invariant pre-state with one foreign entry; DispatcherInner<LcMock, fn>; unwind 3, "
+             "retain_mut/contains 6", unwindset=[("retain_mut", 6), ("contains", 6)], timeout_q=600)
+           for sh in ["f1p0", "f1p1", "f0"]]
+
+PROPS["DEV"] = dict(level="proof", k=K_REENT, m=[])
